@@ -25,6 +25,7 @@ func SetMapMode(node int, m MapMode) { mapModes[node&63] = m }
 // deterministically (pointer/interface keys); they keep Go's native order.
 var UnsortableMaps int
 
+//go:norace
 func lessValue(a, b reflect.Value) int {
 	switch a.Kind() {
 	case reflect.Int, reflect.Int8, reflect.Int16, reflect.Int32, reflect.Int64:
@@ -107,7 +108,10 @@ func sortable(t reflect.Type) bool {
 }
 
 // MapOrder returns the keys of map m in the order the current node's MapMode dictates.
+//go:norace
 func MapOrder(site int, m interface{}) []interface{} {
+	raceOff()
+	defer raceOn()
 	v := reflect.ValueOf(m)
 	if !v.IsValid() || v.Kind() != reflect.Map || v.Len() == 0 {
 		return nil
@@ -148,7 +152,10 @@ func MapOrder(site int, m interface{}) []interface{} {
 
 // SelectOrder returns the order in which an instrumented select polls its n
 // communication cases (identity by default; permuted by the tape stream "sel").
+//go:norace
 func SelectOrder(site int, n int) []int {
+	raceOff()
+	defer raceOn()
 	out := make([]int, n)
 	for i := range out {
 		out[i] = i
